@@ -260,5 +260,16 @@ func RunC14(h *MSHist, r *sim.Rand, rep Reporter) {
 		versions[latest] = cloneContent(model)
 		hashes[latest] = cid.Hash
 		rep.Count("c14.commits", 1)
+		for _, rl := range h.Reload {
+			if rl == ci+1 {
+				// a restarted process: the following queries (until the next Commit) are answered by a freshly opened store
+				n := openMS(db, h)
+				if err := n.rs.LoadLatestVersion(); err != nil {
+					return
+				}
+				in = n
+				rep.Count("c14.reopened_before_queries", 1)
+			}
+		}
 	}
 }
